@@ -231,7 +231,7 @@ def cast__notation_type(self: XPathConstructor, value: ta.AtomicType) -> Notatio
 @method('NOTATION')
 def nud__notation_type(self: XPathConstructor) -> None:
     if not self.parser.parse_arguments:
-        return
+        raise self.error('XPST0017', "no constructor function exists for xs:NOTATION")
 
     self.parser.advance('(')
     if self.parser.next_token.symbol == ')':
